@@ -25,6 +25,7 @@ type Env struct {
 	derefs map[string]func(*State) Val
 	localsFirst bool // invariants/asserts: a name denotes the current value of the variable
 	inOld  bool
+	loopPre *State // invariants: the state on entry to the loop, for entry(e)
 }
 
 func (e *Env) with(state *State) *Env {
@@ -696,6 +697,15 @@ func (e *Env) call(x *SExpr) Val {
 			skip[a.Name] = true
 		}
 		return Val{T: tBool, S: e.allZero(v.S, stT, skip)}
+	case "entry":
+		// entry(e): value of e when the loop was entered (only in loop invariants)
+		if e.loopPre == nil {
+			return e.errorf("entry() is only available in loop invariants")
+		}
+		ne := e.with(e.loopPre)
+		ne.inOld = true
+		ne.localsFirst = false
+		return ne.tr(x.Args[0])
 	case "deref":
 		if x.Args[0].Op == "ident" && e.derefs != nil {
 			if f, ok := e.derefs[x.Args[0].Name]; ok {
@@ -846,6 +856,10 @@ func (e *Env) call(x *SExpr) Val {
 				return e.coerce(v, t)
 			}
 			if kindOf(v.T) == KInt {
+				if bt, ok := t.(*types.Basic); ok && bt.Kind() == types.Int && m.mode == ModeInt {
+					// in specifications (int mode) "int" is the mathematical integers: int(x) is the value of x
+					return Val{T: t, S: v.S, Math: true}
+				}
 				if v.Math && m.mode == ModeInt {
 					return Val{T: t, S: m.wrap(v.S, t)} // exact for any mathematical value
 				}
@@ -914,7 +928,7 @@ func (e *Env) call(x *SExpr) Val {
 			fc.ground["sfr:"+app] = true
 			fc.define(fc.m.inRange(app, rt)) // a spec function of integer type yields a value of that type
 		}
-		return Val{T: rt, S: app}
+		return Val{T: rt, S: app, Math: sf.Body != nil && fc.m.mode == ModeInt}
 	}
 	// pure Go function
 	if fn := fc.g.fnByName[x.Name]; fn != nil {
